@@ -132,10 +132,29 @@ def check(ck):
     ck.need(len(P) >= 4, "BlobStrategy.store: expected (self, data source, key override, object) parameters")
     ds_p, ov_p, obj_p = P[1], P[2], P[3]
     # the hash object: hashlib.sha256(...) or hashlib.new("sha256", ...)
-    named = [c for c in fa.calls("new") if A.call_dotted(c) == "hashlib.new" and c.args and (A.const_str(c.args[0]) or "").lower().replace("-", "") == "sha256"]
-    sha = fa.one([c for c in fa.calls("sha256")] + named, "hashlib.sha256 call")
+    imports = fa.fi.module.imports
+
+    def origin(call):
+        """'hashlib.sha256' for hashlib.sha256(...), h.sha256(...) with `import hashlib as h`, sha256(...) with `from hashlib import sha256`"""
+        d = A.call_dotted(call) or ""
+        head, _, rest = d.partition(".")
+        o = imports.get(head)
+        if o is None or fa.df.is_local(head):
+            return d
+        return (o.replace(":", ".") + ("." + rest if rest else "")).lstrip(".")
+    named = [c for c in fa.calls("new") if origin(c) == "hashlib.new" and c.args and (A.const_str(c.args[0]) or "").lower().replace("-", "") == "sha256"]
+    hashers = [c for c in fa.calls() if origin(c).startswith("hashlib.") and c not in named and origin(c) != "hashlib.new"] + \
+        [c for c in fa.calls("new") if origin(c) == "hashlib.new"]
+    shas = [c for c in hashers if origin(c) == "hashlib.sha256" or c in named]
+    if len(shas) != 1:
+        other = [c for c in hashers if c not in shas]
+        ck.ob(R1, fa.key(other[0] if other else None, "algorithm"), False,
+              "the content hash is not hashlib.sha256 (%s)" % (", ".join("`%s`" % A.short(c, 40) for c in other) if other else "%d SHA-256 computations" % len(shas)),
+              fa.where(other[0]) if other else fa.where())
+        return
+    sha = shas[0]
     SHA_DEP = "call:" + A.call_attr(sha)
-    ok_alg = A.call_dotted(sha) == "hashlib.sha256" or sha in named
+    ok_alg = True
     ck.ob(R1, fa.key(sha, "algorithm"), ok_alg, "SHA-256" if ok_alg else "the content hash is not hashlib.sha256", fa.where(sha))
 
     def is_sha(rv, at, depth=4):
@@ -158,10 +177,21 @@ def check(ck):
     hashed_at = fed[0][1]
     # the digest is used in full (the hexdigest of that very hash object, not a slice of it)
     hx = [c for c in fa.calls("hexdigest") if fa.nodes(c) and is_sha(A.call_recv(c), fa.nodes(c)[0])]
+    # .digest().hex() is the same text
+    dg = [c for c in fa.calls("digest") if fa.nodes(c) and is_sha(A.call_recv(c), fa.nodes(c)[0]) and not c.args]
+    hx += [c for c in fa.calls("hex") if fa.nodes(c) and not c.args and any(A.call_recv(c) is d_ or (
+        isinstance(A.call_recv(c), ast.Name) and all(dd_.kind == "assign" and dd_.value is d_ for dd_ in fa.df.reaching(fa.nodes(c)[0], A.call_recv(c).id))) for d_ in dg)]
+    HEX_DEP = "call:" + A.call_attr(hx[0]) if hx else "call:hexdigest"
     par = fa.pm.get(hx[0]) if hx else None
     ok_hex = bool(hx) and not isinstance(par, ast.Subscript)
     ck.ob(R1, fa.key(sha, "full-digest"), ok_hex, "full hexdigest" if ok_hex else "the digest is truncated or not a hex digest", fa.where(sha))
     outs = fa.some(_ds_calls(fa, "output", ds_p), "data_source.output call")
+    content_tpl = _content_key_template(ck)
+
+    def is_content_key(leaf, n, dd):
+        """built by the content key builder, or spelled out as the builder's own text around one value"""
+        return "call:output_key_for_content_key" in dd or _spells_content_key(fa, leaf, n, content_tpl)
+    fa._c07_is_content_key = is_content_key
     no_ov = Assume(fa, param_truth_atom(ov_p, False))
     with_ov = Assume(fa, param_truth_atom(ov_p, True))
     hashed_roots = {r for i in fa.nodes(hashed_at) for r in _roots(fa, hashed, i)}
@@ -189,19 +219,22 @@ def check(ck):
         for i in no_ov.live(o):
             for (leaf, n) in no_ov.cases(keyarg, i):
                 dd = fa.df.deps(leaf, n)
-                if "call:output_key_for_content_key" not in dd:
+                if not is_content_key(leaf, n, dd):
                     ok_key = False
                     why.append("without an override the output key can be `%s`, which is not built from the content hash" % A.short(leaf, 50))
-                elif SHA_DEP not in dd or "call:hexdigest" not in dd:
+                elif SHA_DEP not in dd or HEX_DEP not in dd:
                     ok_key = False
                     why.append("content key does not derive from the sha256 hexdigest")
+                elif _digest_cut(fa, leaf, n, HEX_DEP[5:]):
+                    ok_key = False
+                    why.append("only part of the digest goes into the content key (`%s`)" % A.short(_digest_cut(fa, leaf, n, HEX_DEP[5:]), 40))
                 else:
                     any_content = True
         for i in with_ov.live(o):
             for (leaf, n) in with_ov.cases(keyarg, i):
                 dd = fa.df.deps(leaf, n)
-                if "call:output_key_for_content_key" in dd:
-                    if SHA_DEP not in dd or "call:hexdigest" not in dd:
+                if is_content_key(leaf, n, dd):
+                    if SHA_DEP not in dd or HEX_DEP not in dd:
                         ok_key = False
                         why.append("content key does not derive from the sha256 hexdigest")
                 elif not ("call:output_key_for_override_key" in dd and "param:" + ov_p in dd):
@@ -235,6 +268,41 @@ def check(ck):
     if exs:
         _check_dedupe(ck, fa, exs[0], outs, R2)
     _rest(ck, fa, R3, R4, R5, R6)
+
+
+def _content_key_template(ck):
+    """The text the content key builder puts around the hash: 'c/{}'."""
+    ck_fa = FA(ck, "storage_base.Codec.Strategy.output_key_for_content_key")
+    tm = [A.str_template(x) for r in ck_fa.returns() if r.value is not None for x in ast.walk(r.value)]
+    tm = [t for t in tm if t is not None and t[0].endswith("{}") and len(t[0]) > 2]
+    return tm[0][0] if tm else None
+
+
+def _spells_content_key(fa, leaf, n, tpl) -> bool:
+    """`DataSourceKey(<the builder's template around ONE value>)`: the builder written out at its call site."""
+    if tpl is None:
+        return False
+    try:
+        e = fa.expand(leaf, n)
+    except Exception:  # noqa - an expression the expander cannot place
+        e = leaf
+    if not (isinstance(e, ast.Call) and A.call_attr(e) == "DataSourceKey" and len(e.args) + len(e.keywords) == 1):
+        return False
+    arg = e.args[0] if e.args else e.keywords[0].value
+    t = A.str_template(arg)
+    return t is not None and t[0] == tpl and len(t[1]) == 1
+
+
+def _digest_cut(fa, leaf, n, hexname):
+    """A subscript / slice applied to (something containing) the hex digest on its way into the key, or None."""
+    try:
+        e = fa.expand(leaf, n)
+    except Exception:  # noqa
+        return None
+    for x in ast.walk(e):
+        if isinstance(x, ast.Subscript) and any(isinstance(y, ast.Call) and A.call_attr(y) == hexname for y in ast.walk(x.value)):
+            return x
+    return None
 
 
 def _ds_calls(fa, name, recv_param):
@@ -447,7 +515,9 @@ def _check_dedupe(ck, fa, ex, outs, R2):
     exarg_ok = bool(ex_keys)
     for i in fa.nodes(ex):
         for (leaf, n) in (absent.cases(ex.args[0], i) if ex.args else []):
-            if "call:output_key_for_content_key" not in fa.df.deps(leaf, n):
+            icc = getattr(fa, "_c07_is_content_key", None)
+            dd = fa.df.deps(leaf, n)
+            if not (icc(leaf, n, dd) if icc is not None else "call:output_key_for_content_key" in dd):
                 exarg_ok = False
     for o in outs:
         keyarg = o.args[0] if o.args else A.kwarg(o, "key")
